@@ -81,6 +81,26 @@ def scen_ConcatenateDataset():
     yield 'a++b++c', a.concatenate(b, c), O.ref_concat([ra, rb, rc]), ['x', 'q', 's']
 
 
+def scen_IntersperseDataset():
+    srcs = [x for x in O.mk_sources(sizes=(1, 2, 3, 5)) if x[2].n > 0]
+    import lazy_dataset
+    for (d1, a, ra), (d2, b, rb) in itertools.product(srcs, srcs):
+        if ra.keys is not None and rb.keys is not None:
+            # distinct key spaces for the second operand
+            kb = ['z' + k for k in rb.keys]
+            b2 = lazy_dataset.new(dict(zip(kb, [10 * (i + 1) for i in range(rb.n)])))
+            if 'map' in d2:
+                continue
+            rb2 = Ref(rb.outs, kb)
+            yield '%s <intersperse> %s(renamed keys)' % (d1, d2), a.intersperse(b2), O.ref_intersperse([ra, rb2]), ra.keys + kb
+        yield '%s <intersperse> %s' % (d1, d2), a.intersperse(b), O.ref_intersperse([ra, rb]), (ra.keys or []) + (rb.keys or [])
+    a = lazy_dataset.new({'a': 1, 'b': 2, 'c': 3})
+    b = lazy_dataset.new({'p': 7})
+    c = lazy_dataset.new({'s': 0, 't': 5})
+    ra, rb, rc = Ref([('v', 1), ('v', 2), ('v', 3)], ['a', 'b', 'c']), Ref([('v', 7)], ['p']), Ref([('v', 0), ('v', 5)], ['s', 't'])
+    yield 'a <i> b <i> c', a.intersperse(b, c), O.ref_intersperse([ra, rb, rc]), ['a', 'p', 't']
+
+
 def scen_ZipDataset():
     srcs = O.mk_sources(sizes=(0, 1, 3))
     for (d1, a, ra), (d2, b, rb) in itertools.product(srcs, srcs):
